@@ -231,9 +231,12 @@ def get_chem(spec):
         if spec[4] != '-': c.Tb = float(spec[4])
         if 'Hfus' in extra:
             before = (c.Sfus, c.Hfus, c.Tm); c.Hfus = float(extra['Hfus']); edits.append(before + (c.Hfus, c.Tm, c.Sfus))
+        if 'S0' in extra: c.S0 = float(extra['S0'])
         _EDITS[id(c)] = (c, edits)
     elif kind == 'lock':
         # lock <ID> <phase> [route [reference phase of the chemical before locking]] — every public route to a locked chemical
+        extra = dict(tok.split('=') for tok in spec if '=' in tok)       # S0=<x>: the public setter, AFTER locking
+        spec = tuple(tok for tok in spec if '=' not in tok)
         ID, ph = spec[1], spec[2]
         route = spec[3] if len(spec) > 3 else 'ctor'
         ref = spec[4] if len(spec) > 4 else None
@@ -252,6 +255,7 @@ def get_chem(spec):
             c = fresh(); c.at_state(ph); c.at_state(ph)
         else:
             raise ValueError('unknown lock route ' + route)
+        if 'S0' in extra: c.S0 = float(extra['S0'])
     elif kind == 'copy':
         # copy <ID> <ref> <variant> <subject A|B> <phase> <k>: B = A.copy(); then another heat-capacity method is selected for
         # ONE of the two (variant: none | orig-reset | copy-reset | copy-noreset); the subject is the chemical examined
@@ -926,7 +930,9 @@ def run_mixupd(t, emit, failures, tags, idx):
     ph, T, P = t[2], float(t[3]), float(t[4])
     n = [float(x) for x in t[5].split(',')]
     kind, j, amount, k = t[6], int(t[7]) % len(ids), float(t[8]), float(t[9])
-    chems = [tmo.Chemical(ID, cache=False) for ID in ids]
+    # a member written `ID:phase` is phase-locked (Chemical(ID, phase=…)): its H / S are single functors, not phase handles
+    chems = [tmo.Chemical(ID.split(':')[0], phase=ID.split(':')[1], cache=False) if ':' in ID else tmo.Chemical(ID, cache=False)
+             for ID in ids]
     chemicals = tmo.Chemicals(chems)
     thermo = tmo.Thermo(chemicals, cache=False)
     mix = thermo.mixture
@@ -970,6 +976,7 @@ def run_mixupd(t, emit, failures, tags, idx):
     # that the second and later edits act on whatever the first one left behind (handle objects, functors, constants)
     history = kind.split('+')
     tags.append(f'mixupd:edits:{len(history)}')
+    if target.locked_state: tags.append('mixupd:locked-member')
     any_reset = any(kd in RESET_KINDS for kd in history)
     for step, kind in enumerate(history):
         amt = amount * (1.0 - 0.45 * step) * (-1.0 if step % 2 else 1.0)
@@ -1007,6 +1014,18 @@ def run_mixupd(t, emit, failures, tags, idx):
             except TypeError:
                 tags.append('mixupd-skip:cmf:thermo-cannot-integrate')      # raised by the dependency inside _init_energies
         else: raise ValueError('unknown update ' + kind)
+        if kind == 'S0':
+            # the edited member itself: S at its reference state is the S0 just set (also for a locked member, whose S is
+            # a single functor)
+            try:
+                sref = float(pure_value(target, 'S', target.phase_ref, target.T_ref, target.P_ref))
+                count += 1
+                if not abs(sref - target.S0) <= 1e-9 * max(1.0, abs(target.S0)):
+                    failures.append({'signature': 'ref-state:S', 'op_index': idx(),
+                                     'what': f'{describe(target)} in a mixture of {t[1]}: after `S0 = {target.S0!r}` '
+                                             f'S(phase_ref, T_ref, P_ref) = {sref!r}'})
+            except Exception as e:
+                tags.append('mixupd-skip:S0-ref:' + type(e).__name__)
         after = {kd: _try(lambda kd=kd: pure(kd)) for kd in ('H', 'S', 'Cn')}
         if any(before[kd] != after[kd] for kd in before): tags.append('mixupd:pure-values-changed:' + kind)
         else: tags.append('mixupd:no-effect:' + kind)
@@ -1080,7 +1099,10 @@ def _run_ops(ops):
             if t[1] == 'switch' or any(x.startswith('T0=') for x in t): tags.append('history:Cn(T0)-then-method-switch')
             if t[1] == 'cmf': tags.append('copy_models_from:' + t[5])
             if t[1] == 'copy': tags.append(f'copy-history:{t[4]}:{t[5]}')
-            if t[1] == 'lock': tags.append('lock-route:' + (t[4] if len(t) > 4 else 'ctor') + ':' + t[3])
+            if t[1] == 'lock' and any(x.startswith('S0=') for x in t): tags.append('locked:S0-setter')
+            if t[1] == 'lock':
+                pos = [x for x in t if '=' not in x]
+                tags.append('lock-route:' + (pos[4] if len(pos) > 4 else 'ctor') + ':' + pos[3])
             for l in sess.head(): emit(l, 'ok')
         elif op == 'wiring':
             for (s0, h0, t0, h1, t1, s1) in _EDITS.get(id(sess.c), (None, []))[1]:
@@ -1349,6 +1371,7 @@ def gen_chem_case(rng):
         spec = f'set {ID} {ref} {Tm if q < 0.7 else "-"} {Tb if q > 0.35 else "-"}'
         if rng.random() < 0.25: spec += f' Sfus={round(rng.uniform(5, 80), 3)}'
         if rng.random() < 0.35: spec += f' Hfus={round(base.Hfus * rng.uniform(0.5, 1.6) + 10.0, 1)}'
+        if rng.random() < 0.3: spec += f' S0={round(rng.uniform(-40, 320), 2)}'
     elif r < 0.68:
         other = rng.choice([x for x in UNIVERSE if x != ID])
         names = rng.choice(['Cn', 'Hvap', 'Cn+Hvap', 'V+Cn', 'Hvap+Psat', 'V', 'auto', 'auto'])
@@ -1372,6 +1395,7 @@ def gen_chem_case(rng):
         route = rng.choice(LOCK_ROUTES)
         spec = f'lock {ID} {rng.choice("slg")} {route}'
         if route != 'ctor' and route != 'copyof' and rng.random() < 0.4: spec += ' ' + rng.choice('slg')
+        if rng.random() < 0.6: spec += f' S0={rng.choice([0.0, 55.5, round(rng.uniform(-40, 320), 2)])}'     # setter on the locked chemical
     else:
         Tm = round(rng.uniform(80, 650), 2)
         Tb = round(Tm + rng.uniform(5, 400), 2) if rng.random() < 0.9 else round(rng.uniform(80, 650), 2)
@@ -1483,6 +1507,10 @@ def gen_mixupd_case(rng):
         more = [rng.choice(['Tb', 'Tm', 'phase_ref', 'reset', 'cmf', 'Hfus', 'Cn', 'S0', 'method', 'methodR', kind]) for _ in range(rng.randrange(1, 3))]
         kind = '+'.join([kind] + more)
     elif rng.random() < 0.25: kind = rng.choice(['cmf', 'method', 'methodR'])
+    if rng.random() < 0.2:
+        # the edited member is phase-locked: the in-place setters must reach its single functors as well
+        ids[j] = ids[j] + ':' + rng.choice('slg')
+        kind = rng.choice(['S0', 'S0', 'S0+S0', 'S0+Hfus', 'Sfus+S0'])
     amount = rng.choice([500.0, -250.0, round(rng.uniform(100, 5000), 1)])
     k = rng.choice([2.0, 0.5, 3.5])
     return Case([f'mixupd {",".join(ids)} {ph} {T} {P} {",".join(map(repr, n))} {kind} {j} {amount} {k}'], {})
@@ -1563,6 +1591,11 @@ def corpus():
               'o:deriv l 320.0 101325.0', 'o:jumpTb']),
         Case(['chem copy Ethanol l copy-noreset B l 1', 'o:ref', 'o:deriv l 320.0 101325.0']),
         Case(['chem copy Water g copy-reset A g 0', 'wiring', 'o:ref', 'o:deriv g 400.0 101325.0', 'o:jumpTb']),
+        # the S0 setter on a phase-locked chemical (single functors instead of phase handles; seeded change C07-13)
+        Case(['chem lock N2 g ctor S0=150.25', 'wiring', 'S g 298.15 101325.0', 'o:ref', 'o:press 300.0 101325.0 50000.0']),
+        Case(['chem lock Water l inplace S0=55.5', 'wiring', 'o:ref']),
+        Case(['chem set Water l - - S0=81.0', 'wiring', 'o:ref']),
+        Case(['mixupd Water,N2:g g 350.0 101325.0 2.0,3.0 S0+S0 1 500.0 2.0']),
         # Cn evaluated at T0, another method selected, examined at exactly T0 (seeded change C07-12)
         Case(['chem switch Ethanol l l 0 320.0 reset', 'o:deriv l 320.0 101325.0', 'wiring', 'o:ref', 'o:jumpTb']),
         Case(['chem switch Water l g 1 400.0 noreset', 'o:deriv g 400.0 101325.0', 'o:ref']),
